@@ -84,12 +84,12 @@ def _tmp(id, b, o):
          desc='merge_from', domain='', oracle='',
          bounds={'quick': {'defs': {'WITH_B': b, 'ORDERS': o}, 'unwind': 10, 'unwindset': {'ll_memmove.0': 40, 'll_memcpy.0': 40}, 'cap': 600}})
 _ERASE = '_ZNSt8_Rb_treeINSt7__cxx1112basic_stringIcSt11char_traitsIcESaIcEEESt4pairIKS5_iESt10_Select1stIS8_ESt4lessIS5_ESaIS8_EE8_M_eraseEPSt13_Rb_tree_nodeIS8_E'
-def _lk(id, kind, early, unwind=10):
-    return dict(id=id, property='C13', src='c13_lookups.cxx', entry='harness_c13_lookups', tus=_MF_TUS + [_DB + 'interrogateManifest.cxx'],
-         cut=[_LOAD_LATEST, _REALLOC_INT], cbmc_flags=_FAT_NODES, tuflags=_ASSERTS, hflags=_ASSERTS,
+def _lk(id, kind, early, symask, unwind=10):
+    return dict(id=id, property='C13', src='c13_lookups.cxx', entry='harness_c13_lookups', tus=_MF_TUS[1:] + [_DB + 'interrogateManifest.cxx'],
+         cut=[_LOAD_LATEST, _REALLOC_INT, _ERASE], cbmc_flags=_FAT_NODES, tuflags=_ASSERTS, hflags=_ASSERTS + ['-DBUILDING_INTERROGATEDB'],
          desc='lookups', domain='', oracle='',
-         bounds={'quick': {'defs': {'KIND': kind, 'EARLY': early}, 'unwind': unwind, 'unwindset': {'ll_memmove.0': 40, 'll_memcpy.0': 40, _ERASE: 6}, 'cap': 600}})
-HARNESSES += [_lk('c13_l1', 2, 0)]
+         bounds={'quick': {'defs': {'KIND': kind, 'EARLY': early, 'SYMASK': symask}, 'unwind': unwind, 'unwindset': {'ll_memmove.0': 40, 'll_memcpy.0': 40}, 'cap': 600}})
+HARNESSES += [_lk('c13_l1', 2, 0, 0), _lk('c13_l2', 2, 0, 1), _lk('c13_l3', 2, 1, 1)]
 HARNESSES += [_tmp('c13_t1', 0, 3), _tmp('c13_t2', 1, 1), _tmp('c13_t3', 1, 2)]
 HARNESSES += [
     dict(id='c13_merge_from', property='C13', src='c13_merge_from.cxx', entry='harness_c13_merge_from', tus=_MF_TUS,
